@@ -33,7 +33,7 @@ IU = 'utils.iter_utils'
 
 
 def run(ctx: Ctx):
-  for r in (r1, r2, r3, r4):
+  for r in (r1, r2, r3, r4, r6):
     ctx.guard(r)
   from mlmverif.props import c04
   from mlmverif.props._queue import model as qmodel
@@ -284,10 +284,78 @@ def r4(ctx: Ctx):
   ctx.floor(rule, 3)
 
 
+def _len_at_most_one_edge(t: ast.AST, coll: str) -> str | None:
+  """Edge label ('true'/'false') of test `t` on which len(coll) <= 1 is known."""
+  neg = False
+  while isinstance(t, ast.UnaryOp) and isinstance(t.op, ast.Not):
+    neg = not neg
+    t = t.operand
+  lab = None
+  if isinstance(t, ast.Compare) and len(t.ops) == 1 and unparse(t.left) == f'len({coll})' and isinstance(
+      t.comparators[0], ast.Constant) and isinstance(t.comparators[0].value, int):
+    c, op = t.comparators[0].value, type(t.ops[0])
+    if (op, c) in ((ast.Eq, 1), (ast.LtE, 1), (ast.Lt, 2), (ast.Eq, 0)):
+      lab = 'true'
+    elif (op, c) in ((ast.Gt, 1), (ast.GtE, 2), (ast.NotEq, 1)) and (op, c) != (ast.NotEq, 1):
+      lab = 'false'
+  if lab is None:
+    return None
+  return lab if not neg else ('false' if lab == 'true' else 'true')
+
+
+def r6(ctx: Ctx):
+  rule = 'R-C13-6'
+  ctx.rule(rule, 'every source is consumed: MultiplexIterator picks ONE source'
+           ' out of its list (`_source_iterators[0]`) only on a path where the'
+           ' list is known to hold at most one source (true edge of len == 1'
+           ' / false edge of len > 1); with several sources they are chained'
+           ' or multiplexed — otherwise sources 2..n and their return values'
+           ' are silently dropped')
+  fi = ctx.repo.func(IU, 'MultiplexIterator.__init__')
+  g = cfgm.cfg_of(fi.node)
+  coll = 'self._source_iterators'
+  picks = [n for n in g.nodes if any(
+      isinstance(x, ast.Subscript) and unparse(x.value) == coll and isinstance(x.slice, ast.Constant)
+      for e in cfgm.node_exprs(n) for x in ast.walk(e))]
+  if not picks:
+    raise AnalysisError(f'{rule}: no single-source pick found in MultiplexIterator.__init__')
+
+  def edge_ok(p_, q_, lab):
+    if lab in ('exc', 'close'):
+      return False
+    if p_.kind == 'cond':
+      good = _len_at_most_one_edge(p_.ast, coll)
+      if good is not None and lab == good:
+        return False
+    return True
+
+  reach = g.reachable([g.entry], edge_ok=edge_ok, include_src=True)
+  n = 0
+  for pk in picks:
+    n += 1
+    if pk in reach:
+      ctx.fail(rule, fi, 'MultiplexIterator.__init__: self._source_iterators[0] only when there is at most one source',
+               'a single source is picked out of the list on a path where the'
+               ' list may hold several sources: the other sources are never'
+               ' iterated (their elements and return values are lost) for'
+               ' some combinations of source count and parallelism', node=pk.ast,
+               witness=g.path_to(reach, pk)[-8:])
+    else:
+      ctx.ok(rule, fi, f'`{pk.text()[:50]}` under len({coll}) <= 1', pk.ast)
+  ctx.floor(rule, 2, n)
+
+
 from mlmverif.selfcheck import B, OK  # noqa: E402
 
 _F = 'utils/iter_utils.py'
 VARIANTS = [
+    B('multiplex-only-with-enough-sources', _F,
+      '    if len(self._source_iterators) > 1:\n      iterators = self._source_iterators',
+      '    if len(self._source_iterators) >= max(parallism, 2):\n      iterators = self._source_iterators',
+      'R-C13-6'),
+    OK('multiplex-branches-swapped', _F,
+       '    if len(self._source_iterators) > 1:\n      iterators = self._source_iterators',
+       '    if not len(self._source_iterators) <= 1:\n      iterators = self._source_iterators'),
     B('iter-returns-raw-iterator', _F,
       '      return next(self._iterator)\n\n  def __iter__(self):\n    return self\n',
       '      return next(self._iterator)\n\n  def __iter__(self):\n    return self._iterator\n',
